@@ -333,6 +333,11 @@ func oracleC17(f *sessionFam, w *World, res *Result) []Violation {
 			if len(acao) > 0 {
 				v = acao[0]
 			}
+			// (the middleware answers a request it does not allow with the literal value "false", which names nobody)
+			if v != "" && v != "*" && v != "false" && v != origin && !(o.Cors.OriginKind == "string" && v == o.Cors.Origin) {
+				// "names the request's Origin (or '*')": not somebody else's
+				l.add("cors-names-request-origin", o.Cors.OriginKind, fmt.Sprintf("%s: Access-Control-Allow-Origin %q on the response to a request with Origin %q", r.Client, v, origin))
+			}
 			if (v == "*" || (v == origin && origin != "")) && !allowed {
 				l.add("cors-origin-only-when-allowed", o.Cors.OriginKind, fmt.Sprintf("%s: Access-Control-Allow-Origin %q for Origin %q which the policy (%s) does not allow", r.Client, v, origin, o.Cors.OriginKind))
 			}
